@@ -135,9 +135,12 @@ def run(ctx):
                 cw.append((f, bb, j))
         for bb, j, k, ops in rules.agg_sites(f, r"^radicle::cob::identity::Identity$"):
             cw.append((f, bb, j))
-    rules.who(ctx, "who:Identity.current", "write of Identity.current", cw,
-              [r"^radicle::cob::identity::Identity::(new|adopt)$", r"Clone>::clone$", r"serde|Deserialize|Visitor"])
+    helpers = rules.who_inherit(ctx, "who:Identity.current", "write of Identity.current", cw,
+                                [r"^radicle::cob::identity::Identity::(new|adopt)$", r"Clone>::clone$", r"serde|Deserialize|Visitor"])
     aw = [bb for bb, j, s in rules.field_writes(adopt, "current") if s[1][1][-1].endswith(":current")]
+    # a helper that performs the write on adopt's behalf: its call sites in adopt are the effect
+    for hk, callers in helpers.items():
+        aw += [bb for f_, bb in callers if f_ is adopt or db.root_of(f_) is adopt]
     ok, a, bad = rules.dom_check(db, adopt, aw, rules.is_bool(r"is_majority$", True))
     ctx.check("dom:adopt:majority", bool(ok and a and aw), "adopt() changes `current` only if is_majority(votes) holds", rules.where(adopt, aw[0] if aw else None), fn=adopt)
     for bb in rules.call_blocks(adopt, r"is_majority$"):
@@ -185,7 +188,7 @@ def run(ctx):
         for s in b["s"]:
             if s[0] == "=" and "*" in s[1][1] and not b.get("c") and act["locals"][s[1][0]][0].startswith("&mut "):
                 writes.add(i)
-    ctx.floor("action:writes", len(writes), 8, "state-writing sites in Identity::action")
+    ctx.floor("action:writes", len(writes), 3, "state-writing sites in Identity::action")
     ok, a, bad = rules.dom_check(db, act, sorted(writes), rules.is_bool(r"doc::Doc::is_delegate$", True))
     ctx.check("dom:action:delegate", bool(ok and a), "every state change in Identity::action is behind `current.is_delegate(author)`",
               rules.where(act, (list(bad) or [None])[0]), detail={"path": list(bad.values())[:1]}, fn=act)
@@ -219,7 +222,7 @@ def run(ctx):
                   detail={"path": list(bad.values())[:1]}, fn=act)
     ed = [bb for bb in regs.get("RevisionEdit", ()) for s in act["blocks"][bb]["s"]
           if s[0] == "=" and "*" in s[1][1] and (rules.place_has_field(s[1], "title") or rules.place_has_field(s[1], "description"))]
-    ctx.floor("edit:sites", len(ed), 2, "title/description writes in the RevisionEdit arm")
+    ctx.floor("edit:sites", len(ed), 1, "title/description writes in the RevisionEdit arm")
     for label, pred in (("not-current", not_current("RevisionEdit")),
                         ("active", rules.is_bool(r"Revision::is_active$", True)),
                         ("own", lambda f: f[0] == "cmp" and f[1] == "Eq" and "arg4" in nshow(f[2]) + nshow(f[3]) and "author" in nshow(f[2]) + nshow(f[3]))):
